@@ -71,7 +71,7 @@ def create_case(case):
     check(type(got[2]) is int, "respin-not-int", "%r" % (got[2],))
     # the whole object (release + compose section carrying that id) can be written and read back
     text = must("dumps-with-created-id", ci.dumps)
-    again = ComposeInfo()
+    again = gen.give_past(ComposeInfo(), gen.past_of(text))
     must("loads-with-created-id", again.loads, text)
     check((again.compose.id, again.compose.date, again.compose.type, again.compose.respin) == (cid,) + want, "reload-differs",
           "compose section after reload: %r" % ((again.compose.id, again.compose.date, again.compose.type, again.compose.respin),))
@@ -152,6 +152,7 @@ def legacy_case(case):
     if case.get("peek"):
         # looking at a fresh object's (current) version before loading into it is harmless
         check(ci.header.version_tuple == (1, 2), "fresh-header-version", "%r" % (ci.header.version_tuple,))
+    gen.give_past(ci, gen.past_of(json.dumps(doc)))
     must("load-legacy", ci.loads, json.dumps(doc))
     want = (cid, case["date"], SUFFIX_TABLE[case["suffix"]], case["respin"] if case["with_respin"] else 0)
     got = (ci.compose.id, ci.compose.date, ci.compose.type, ci.compose.respin)
